@@ -1,7 +1,7 @@
 SPECIFICATION Spec
 CONSTANTS
   Ls = {4}
-  Family = "cuts"
+  Family = "rot2"
   OpKinds = {}
   Chunk = 40
   Stride = 1
